@@ -1,7 +1,7 @@
 """Rules every property applies to the functions it analysed and to what those functions call (TOTAL-*).
 
 The properties are stated over what the mechanism *does*; each of them silently relies on the pieces of the mechanism handing each
-other what they promise.  Three promises are visible in the shape of the code and are checked here, for the functions a check
+other what they promise.  Four promises are visible in the shape of the code and are checked here, for the functions a check
 lists as analysed, the other methods of their classes, and the package functions they call (two levels):
 
 TOTAL-RETURN   a function whose declared return type does not admit None never returns None (explicit `return None`, bare
@@ -12,6 +12,11 @@ TOTAL-ATTR     every attribute a method reads on `self` is bound somewhere in th
                subclasses — a constructor that no longer stores an option leaves every later read raising AttributeError.
 TOTAL-ISINST   `isinstance(x, C)`: the second argument is a class expression and the first is the value — with the two swapped the
                call raises TypeError (or is constantly false) on every execution.
+
+TOTAL-LOGLEVEL `<logger>.log(level, msg, …)` has the level first: a message literal in the level position makes Logger.log raise TypeError.
+
+ENC-BRANCH (encoder_default, called by C01 / C14 / C16 for the encoder each relies on) is the shape of a json.JSONEncoder.default
+override: isinstance branches return values built from the object, everything else goes to `super().default(o)`.
 
 They are necessary conditions only; nothing is said about the values returned.  Stubs (abstract methods, protocol members, bodies
 made of a docstring / `...` / `raise NotImplementedError`) and generators are skipped; classes with dynamic attribute binding
@@ -527,6 +532,7 @@ def totality(ck: Check, prog: Program, extra: Iterable[str] = ()) -> None:
     scope = scope_of(prog, list(ck.functions) + list(extra))
     if not scope:
         return
+    ck.extra['total_scope'] = {'functions': len(scope), 'beyond_the_analysed_ones': sorted(set(scope) - set(ck.functions))}
     for rule, fn, what in (('TOTAL-RETURN', return_problems, 'functions with a None-free declared return type never return None where the value is used'),
                            ('TOTAL-ATTR', attr_problems, 'classes: every attribute read on self is bound by the class family'),
                            ('TOTAL-ISINST', isinstance_problems, 'isinstance / issubclass calls have the value first and the class second'),
